@@ -52,11 +52,19 @@ func TestC28(t *testing.T) {
 	defer os.RemoveAll(root)
 	send := &recSender{}
 	in := hx.NewInst(root, hx.InstOpts{Sender: send})
-	defer in.Close()
+	defer func() { in.Close() }()
+	cases := 0
 	rapid.Check(t, func(t *rapid.T) {
+		// the instance's WAL file grows with every case (up to MBs each, on tmpfs): start afresh regularly
+		if cases++; cases%150 == 0 {
+			in.Close()
+			os.RemoveAll(root)
+			in = hx.NewInst(root, hx.InstOpts{Sender: send})
+		}
 		nCmd := rapid.IntRange(1, 5).Draw(t, "ncommands")
 		var cmds []*wal.WriteCommand
 		maxNameLen, maxCols := 0, 0
+		relatedSchemas := false
 		for c := 0; c < nCmd; c++ {
 			variable := rapid.Bool().Draw(t, "variable")
 			// key path: Symbol/Timeframe/Group/Year.bin with long or odd (but slash-free) components
@@ -65,11 +73,37 @@ func TestC28(t *testing.T) {
 				fmt.Sprintf("%d.bin", rapid.IntRange(1970, 2100).Draw(t, "year")))
 			ncols := rapid.OneOf(rapid.IntRange(1, 6), rapid.IntRange(1, 255), rapid.IntRange(200, 300)).Draw(t, "ncols")
 			dsv := []io.DataShape{{Name: "Epoch", Type: io.INT64}}
-			for i := 0; i < ncols; i++ {
-				nm := rapid.OneOf(rapid.StringMatching(`[A-Za-z][A-Za-z0-9_]{0,11}`), rapid.StringMatching(`[A-Za-z]{20,32}`)).Draw(t, "name")
-				dsv = append(dsv, io.DataShape{Name: nm, Type: rapid.SampledFrom(hx.WireTypes).Draw(t, "type")})
-				if len(nm) > maxNameLen {
-					maxNameLen = len(nm)
+			if c > 0 && rapid.IntRange(0, 2).Draw(t, "relatedSchema") == 0 {
+				// as in real transactions, consecutive commands often go to buckets with the same column
+				// names: identical schema, or the same names with some element types changed, or one
+				// column more / fewer
+				relatedSchema := cmds[c-1].DataShapes
+				relatedSchemas = true
+				dsv = append([]io.DataShape{}, relatedSchema...)
+				switch rapid.IntRange(0, 3).Draw(t, "relation") {
+				case 1:
+					for i := 1; i < len(dsv); i++ {
+						if rapid.IntRange(0, 2).Draw(t, "retype") == 0 {
+							dsv[i].Type = rapid.SampledFrom(hx.WireTypes).Draw(t, "type")
+						}
+					}
+				case 2:
+					if len(dsv) > 2 {
+						dsv = dsv[:len(dsv)-1]
+					}
+				case 3:
+					dsv = append(dsv, io.DataShape{Name: "Extra", Type: rapid.SampledFrom(hx.WireTypes).Draw(t, "type")})
+				}
+				ncols = len(dsv) - 1
+			} else {
+				for i := 0; i < ncols; i++ {
+					nm := rapid.OneOf(rapid.StringMatching(`[A-Za-z][A-Za-z0-9_]{0,11}`), rapid.StringMatching(`[A-Za-z]{20,32}`)).Draw(t, "name")
+					dsv = append(dsv, io.DataShape{Name: nm, Type: rapid.SampledFrom(hx.WireTypes).Draw(t, "type")})
+				}
+			}
+			for _, ds := range dsv {
+				if len(ds.Name) > maxNameLen {
+					maxNameLen = len(ds.Name)
 				}
 			}
 			if ncols+1 > maxCols {
@@ -143,6 +177,9 @@ func TestC28(t *testing.T) {
 		cls := []string{fmt.Sprintf("commands=%d", nCmd)}
 		if maxCols > 255 {
 			cls = append(cls, "columns>255")
+		}
+		if relatedSchemas {
+			cls = append(cls, "consecutive-commands-with-related-schemas")
 		}
 		rec.Case(nt, cls...)
 	})
